@@ -147,7 +147,73 @@ func wrapLiteral(r *rand.Rand) string {
 	return n.String()
 }
 
+// numberLike is the content of a string (value or key) whose characters a number reader would take for a number
+// (CanonJSON.tla section 3b): the spelling of a JSON number literal - special, wrapping or random -, or a spelling
+// outside the JSON grammar that lenient readers accept (inf / infinity / nan in any letter case, hexadecimal floats,
+// a leading +, a bare point, leading zeros, digit-group underscores, surrounding blanks).  It is a string all the same.
+func (g *docGen) numberLike() []int {
+	r := g.r
+	var s string
+	switch p := r.Intn(20); {
+	case p < 7:
+		s = recSpecialNumbers[r.Intn(len(recSpecialNumbers))]
+	case p < 10:
+		s = wrapLiteral(r)
+	case p < 13:
+		s = string(g.literal())
+	case p < 15:
+		w := []byte([]string{"inf", "infinity", "nan"}[r.Intn(3)])
+		for i := range w {
+			if r.Intn(2) == 0 {
+				w[i] -= 'a' - 'A'
+			}
+		}
+		s = []string{"", "", "-", "+"}[r.Intn(4)] + string(w)
+	case p < 17:
+		s = []string{"", "-", "+"}[r.Intn(3)] + []string{"0x", "0X"}[r.Intn(2)] + fmt.Sprintf("%x", 1+r.Intn(1<<20))
+		if r.Intn(3) > 0 {
+			s += []string{"p", "P"}[r.Intn(2)] + []string{"", "+", "-"}[r.Intn(3)] + fmt.Sprint(r.Intn(1100))
+		}
+	default:
+		lit := string(g.literal())
+		if r.Intn(2) == 0 {
+			lit = recSpecialNumbers[r.Intn(len(recSpecialNumbers))]
+		}
+		switch r.Intn(6) {
+		case 0:
+			s = "+" + lit
+		case 1:
+			s = []string{" ", "\t", "\n"}[r.Intn(3)] + lit
+		case 2:
+			s = lit + []string{" ", "\n", "\r"}[r.Intn(3)]
+		case 3:
+			s = "0" + lit
+		case 4:
+			s = lit + "."
+		default:
+			if len(lit) > 2 {
+				k := 1 + r.Intn(len(lit)-1)
+				s = lit[:k] + "_" + lit[k:]
+			} else {
+				s = "." + lit
+			}
+		}
+	}
+	cps := make([]int, len(s))
+	for i := 0; i < len(s); i++ {
+		cps[i] = int(s[i])
+	}
+	return cps
+}
+
 func (g *docGen) number() {
+	for _, b := range g.literal() {
+		g.emit(numTok(b), false)
+	}
+}
+
+// literal is a JSON number literal: special, wrapping or random.
+func (g *docGen) literal() []byte {
 	r := g.r
 	var lit []byte
 	if p := r.Intn(12); p < 4 {
@@ -182,9 +248,7 @@ func (g *docGen) number() {
 			}
 		}
 	}
-	for _, b := range lit {
-		g.emit(numTok(b), false)
-	}
+	return lit
 }
 
 func (g *docGen) value(depth int) {
@@ -203,7 +267,11 @@ func (g *docGen) value(depth int) {
 	case p < 42:
 		g.number()
 	case p < 60:
-		g.str(g.randString(nil))
+		if r.Intn(4) == 0 {
+			g.str(g.numberLike()) // the characters of a number between quotes: a string like any other
+		} else {
+			g.str(g.randString(nil))
+		}
 	case p < 78:
 		g.emit(tLBrack, false)
 		n := r.Intn(4)
@@ -232,6 +300,9 @@ func (g *docGen) value(depth int) {
 		wrote := 0
 		for i := 0; i < n; i++ {
 			key := g.randString(alphabet)
+			if r.Intn(10) == 0 {
+				key = g.numberLike()
+			}
 			id := fmt.Sprint(key)
 			if seen[id] && !dupOK {
 				continue
